@@ -188,10 +188,6 @@ def check(prop, tier, args):
     mods = [m.__name__ for m in front.number_modules() if hasattr(m, 'format')]
     if args.modules:
         mods = [m for m in mods if m in args.modules]
-    if units is None:
-        from . import vfamily
-        vfamily.run_sweep('quick')
-        units = accept.accepting_units()
     items = []
     for m in mods:
         ls = sorted({n for o, n in units.get(m, []) if n != 'long'}, key=lambda x: x)
